@@ -52,6 +52,11 @@ func c17Gen(class string, seed uint64, tier string) *vfScenario {
 			fl := int64(rng.IntN(16))
 			op := vfOp{K: []string{"setstat", "fsetstat"}[rng.IntN(2)], P: []string{"reg", "dir", "lnk"}[rng.IntN(3)], B: fl,
 				Off: int64(rng.IntN(100)), N: rng.IntN(0o10000), A: int64(rng.IntN(60000))<<16 | int64(rng.IntN(60000))}
+			if op.K == "fsetstat" && op.P == "reg" && rng.IntN(3) == 0 {
+				// between open and FSETSTAT somebody renames the file and puts another one under its name: the request
+				// is about the open file
+				op.S = "moved"
+			}
 			sc.Ops = append(sc.Ops, op)
 		}
 	}
@@ -386,34 +391,20 @@ func c17LongNames(r *vfRun, root string, kinds []string) bool {
 		return false
 	}
 	for _, e := range p.Names {
-		a := e.Attrs
-		f := strings.Fields(e.Long)
-		if len(f) < 9 {
-			r.fail("C17/longname", "format", "long name %q of %s has %d fields, want at least 9", e.Long, e.Name, len(f))
-			return false
-		}
-		wantPerm := c17PermString(a.Perm)
-		mt := time.Unix(int64(a.Mtime), 0)
-		wantDate := mt.Format("Jan 2")
-		wantYT := mt.Format("15:04")
-		if mt.Before(now.AddDate(0, -6, 0)) {
-			wantYT = mt.Format("2006")
-			sim.count("probe.longname_year_branch")
-		} else {
-			sim.count("probe.longname_time_branch")
-		}
-		owner, group := strconv.Itoa(int(a.UID)), strconv.Itoa(int(a.GID))
-		if u, err := user.LookupId(owner); err == nil {
-			owner = u.Username
-		}
-		if g, err := user.LookupGroupId(group); err == nil {
-			group = g.Name
-		}
-		name := strings.Join(f[8:], " ")
-		got := fmt.Sprintf("%s owner=%s group=%s size=%s date=%s %s when=%s name=%s", f[0], f[2], f[3], f[4], f[5], f[6], f[7], name)
-		want := fmt.Sprintf("%s owner=%s group=%s size=%d date=%s when=%s name=%s", wantPerm, owner, group, a.Size, wantDate, wantYT, e.Name)
-		if got != want {
-			r.fail("C17/longname", "disagrees", "long name %q disagrees with the structured attributes of the same entry (perm=%#o size=%d mtime=%d uid=%d gid=%d, clock %s): parsed %s, want %s", e.Long, a.Perm, a.Size, a.Mtime, a.UID, a.GID, now.Format("2006-01-02"), got, want)
+		cl, msg := c17CheckLong(sim, e, now, func(id string, group bool) string {
+			if group {
+				if g, err := user.LookupGroupId(id); err == nil {
+					return g.Name
+				}
+				return id
+			}
+			if u, err := user.LookupId(id); err == nil {
+				return u.Username
+			}
+			return id
+		})
+		if msg != "" {
+			r.fail("C17/longname", cl, "%s", msg)
 			return false
 		}
 	}
@@ -421,6 +412,33 @@ func c17LongNames(r *vfRun, root string, kinds []string) bool {
 	srv.c2s.closeWriter()
 	sim.run(func() bool { d, _ := srv.served(); return d })
 	return true
+}
+
+// c17CheckLong compares the long name of one listing entry with the structured attributes of the same entry.
+func c17CheckLong(sim *vfSim, e wName, now time.Time, lookup func(id string, group bool) string) (string, string) {
+	a := e.Attrs
+	f := strings.Fields(e.Long)
+	if len(f) < 9 {
+		return "format", fmt.Sprintf("long name %q of %s has %d fields, want at least 9", e.Long, e.Name, len(f))
+	}
+	wantPerm := c17PermString(a.Perm)
+	mt := time.Unix(int64(a.Mtime), 0)
+	wantDate := mt.Format("Jan 2")
+	wantYT := mt.Format("15:04")
+	if mt.Before(now.AddDate(0, -6, 0)) {
+		wantYT = mt.Format("2006")
+		sim.count("probe.longname_year_branch")
+	} else {
+		sim.count("probe.longname_time_branch")
+	}
+	owner, group := lookup(strconv.Itoa(int(a.UID)), false), lookup(strconv.Itoa(int(a.GID)), true)
+	name := strings.Join(f[8:], " ")
+	got := fmt.Sprintf("%s owner=%s group=%s size=%s date=%s %s when=%s name=%s", f[0], f[2], f[3], f[4], f[5], f[6], f[7], name)
+	want := fmt.Sprintf("%s owner=%s group=%s size=%d date=%s when=%s name=%s", wantPerm, owner, group, a.Size, wantDate, wantYT, e.Name)
+	if got != want {
+		return "disagrees", fmt.Sprintf("long name %q disagrees with the structured attributes of the same entry (perm=%#o size=%d mtime=%d uid=%d gid=%d, clock %s): parsed %s, want %s", e.Long, a.Perm, a.Size, a.Mtime, a.UID, a.GID, now.Format("2006-01-02"), got, want)
+	}
+	return "", ""
 }
 
 // c17Setstat: a set-attributes request changes exactly the attributes whose flags it carries.
@@ -464,6 +482,7 @@ func c17Setstat(r *vfRun) {
 		if isDir && fl&waSize != 0 {
 			return // truncating a directory fails before anything else is applied: not an attribute-selection question
 		}
+		timesByPath := false
 		fs := &FileStat{Size: uint64(op.Off), Mode: uint32(op.N) & 0o7777, UID: uint32(op.A>>16) & 0xffff, GID: uint32(op.A) & 0xffff, Atime: uint32(1600000000 + op.N), Mtime: uint32(1700000000 + op.N)}
 		if sc.cfg("late", 0) != 0 {
 			fs.Atime, fs.Mtime = uint32(1<<31-2048+op.N), uint32(1<<31-100+op.N)
@@ -478,8 +497,30 @@ func c17Setstat(r *vfRun) {
 			}
 			f, err = c.OpenFile(op.P, os.O_RDWR)
 			if err == nil {
+				moved := op.S == "moved" && op.P == "reg"
+				var decoy attrs
+				if moved {
+					os.Rename(target, target+".m")
+					os.WriteFile(target, []byte("decoy"), 0o604)
+					os.Chtimes(target, base, base)
+					decoy = get(target)
+					sim.count("fault.file_renamed_under_open_handle")
+				}
 				err = c.fsetstat(f.handle, fl, fs)
 				f.Close()
+				if moved {
+					d2 := get(target)
+					os.Remove(target)
+					os.Rename(target+".m", target)
+					if err == nil && fl&waTimes != 0 && d2.mtime != decoy.mtime {
+						timesByPath = true // judged below, together with the times of the open file
+					}
+					d2.atime, d2.mtime = decoy.atime, decoy.mtime
+					if d2 != decoy && err == nil {
+						mismatch, msig = fmt.Sprintf("fsetstat on an open handle (flags %#x) changed another file that had taken the name of the open one: %+v -> %+v", fl, decoy, d2), "decoy:fsetstat"
+						return
+					}
+				}
 			}
 		}
 		if err != nil {
@@ -518,6 +559,14 @@ func c17Setstat(r *vfRun) {
 			// setuid/setgid when the owner changes afterwards - not an attribute-selection question
 			after.mode &^= os.ModeSetuid | os.ModeSetgid
 			want.mode &^= os.ModeSetuid | os.ModeSetgid
+		}
+		if op.S == "moved" && fl&waTimes != 0 && (timesByPath || after.atime != want.atime || after.mtime != want.mtime) {
+			a2 := after
+			a2.atime, a2.mtime = want.atime, want.mtime
+			if a2 == want {
+				mismatch, msig = fmt.Sprintf("fsetstat(times) on a handle whose file had been renamed: the times went to whatever now has the old name (decoy changed: %v), the open file has atime=%d mtime=%d, want %d %d", timesByPath, after.atime, after.mtime, want.atime, want.mtime), "moved:fsetstat-times"
+				return
+			}
 		}
 		if after != want {
 			mismatch, msig = fmt.Sprintf("%s(%s) with flags %#x (size=%d perm=%#o uid=%d gid=%d atime=%d mtime=%d): attributes went from %+v to %+v, exactly the flagged ones should have changed: %+v", op.K, op.P, fl, fs.Size, fs.Mode, fs.UID, fs.GID, fs.Atime, fs.Mtime, before, after, want), fmt.Sprintf("flags%x:%s", fl, op.K)
